@@ -4245,8 +4245,27 @@ fn attr_value_from_name(name: &str, context: &Context) -> error::Result<String> 
 }
 
 fn entity_value_from_name(name: &str, context: &Context, normalize: bool) -> error::Result<String> {
+    expand_entity(name, context, normalize, &mut vec![], &mut HashMap::new())
+}
+
+fn expand_entity(
+    name: &str,
+    context: &Context,
+    normalize: bool,
+    path: &mut Vec<String>,
+    expanded: &mut HashMap<String, String>,
+) -> error::Result<String> {
+    if let Some(v) = expanded.get(name) {
+        return Ok(v.clone());
+    }
+
+    if path.iter().any(|v| v == name) {
+        return Err(error::Error::InvalidData(format!("&{};", name)));
+    }
+
     let entity = context.entity(name)?;
     let mut parsed = String::new();
+    path.push(name.to_string());
     for value in entity.borrow().values().unwrap_or_default() {
         match &value {
             XmlEntityValue::Character(v, r) => match r {
@@ -4255,7 +4274,7 @@ fn entity_value_from_name(name: &str, context: &Context, normalize: bool) -> err
                 _ => unreachable!(),
             },
             XmlEntityValue::Entity(v) => {
-                let v = entity_value_from_name(v, context, normalize)?;
+                let v = expand_entity(v, context, normalize, path, expanded)?;
                 parsed.push_str(v.as_str());
             }
             XmlEntityValue::Parameter(_) => {
@@ -4265,6 +4284,8 @@ fn entity_value_from_name(name: &str, context: &Context, normalize: bool) -> err
             XmlEntityValue::Text(v) => parsed.push_str(v),
         }
     }
+    path.pop();
+    expanded.insert(name.to_string(), parsed.clone());
     Ok(parsed)
 }
 
